@@ -99,6 +99,8 @@ type Cluster struct {
 	ZKAfterClose int
 	Errors    []string // protocol errors seen by servers
 	WConns    []*WConn // tier W: every accepted connection
+	DelayResp map[string]bool // tier W: server -> responses are held back until ReleaseResponses
+	delayed   []func()
 	MultiSeq  int
 	nextID    uint64
 	resets    map[string][]func() // server -> live connections' reset callbacks
@@ -108,7 +110,7 @@ type Cluster struct {
 
 func NewCluster(meta string) *Cluster {
 	return &Cluster{MetaAddr: meta, MasterAddr: "master:16000", Down: map[string]bool{}, Silent: map[string]bool{},
-		Hold: map[string]bool{}, KeyScript: map[string][]string{}, Script: map[string][]string{}, SrvScript: map[string][]string{}, Counters: map[string]int64{},
+		DelayResp: map[string]bool{}, Hold: map[string]bool{}, KeyScript: map[string][]string{}, Script: map[string][]string{}, SrvScript: map[string][]string{}, Counters: map[string]int64{},
 		Dials: map[string]int{}, Open: map[string]int{}, MaxOpen: map[string]int{}, resets: map[string][]func(){},
 		Now: func() time.Duration { return 0 }, nextID: 100}
 }
@@ -410,9 +412,11 @@ func (c *Cluster) ExecMetaLookup(addr string, startRow, stopRow []byte) (OpResul
 	return OpResult{Cells: MetaCells(best)}, best
 }
 
+// ZKAttempt notes that a ZooKeeper lookup has started (it may never be answered).
+func (c *Cluster) ZKAttempt() { c.ZKLookups = append(c.ZKLookups, c.Now()) }
+
 // ZKLocate answers a ZooKeeper lookup for meta or master.
 func (c *Cluster) ZKLocate(master bool) (string, error) {
-	c.ZKLookups = append(c.ZKLookups, c.Now())
 	if len(c.ZKScript) > 0 {
 		e := c.ZKScript[0]
 		c.ZKScript = c.ZKScript[1:]
